@@ -216,6 +216,10 @@ def t1(ctx):
             bad = native_fpfn()
             ctx.fail(name, dict(key="%s|default" % fname, observed=bad[:3]), detail=(bad[0] if bad else "default of is_bipartitions_updated is not False"),
                      kind="T1", no_input=not bad)
+    # ... and what the caller says about its encodings reaches the function that acts on it, unchanged (a negated or constant flag makes the
+    # distance read encodings cached before a modification)
+    from dpvc import forwarding
+    forwarding.obligations(ctx, "is_bipartitions_updated", lambda mn: mn == TC, "flag-reaches", exact=True, native=native_stale_distance)
     lean.check_lemma(ctx, "Metrics.lean",
                      ["rf_eq_card_symmDiff", "rf_self", "rf_comm", "rf_triangle", "rf_eq_zero_iff", "wrf_self", "wrf_comm", "wrf_triangle",
                       "euclid_triangle", "euclid_comm", "euclid_formula"],
@@ -224,7 +228,34 @@ def t1(ctx):
                                  "euclid_triangle": "contract of _get_length_diffs (bounded, T2)"})
 
 
+def native_stale_distance(modname=None, qual=None):
+    """every public distance with default arguments on two trees that were encoded and then edited: must equal the distance of fresh copies"""
+    import dendropy
+    from dendropy.calculate import treecompare
+    ns = dendropy.TaxonNamespace(["A", "B", "C", "D", "E"])
+    mk = lambda: [dendropy.Tree.get(data=nw, schema="newick", taxon_namespace=ns) for nw in ("((A:1,B:2):1,(C:1,(D:2,E:1):2):1);", "((A:1,B:2):1,(C:1,(D:2,E:1):2):1);")]
+    for fname in ("symmetric_difference", "unweighted_robinson_foulds_distance", "weighted_robinson_foulds_distance", "euclidean_distance", "false_positives_and_negatives"):
+        f = getattr(treecompare, fname)
+        a, b = mk()
+        a.encode_bipartitions()
+        b.encode_bipartitions()
+        x, y = a.find_node_with_taxon_label("B"), a.find_node_with_taxon_label("D")
+        x.taxon, y.taxon = y.taxon, x.taxon                     # edit after encoding
+        got = f(a, b)
+        fa = dendropy.Tree.get(data=a.as_string("newick"), schema="newick", taxon_namespace=ns)
+        fb = dendropy.Tree.get(data=b.as_string("newick"), schema="newick", taxon_namespace=ns)
+        want = f(fa, fb)
+        if got != want:
+            return dict(key=fname, outcome="%s(a, b) with default arguments after exchanging B and D in a (both trees encoded before) = %r; on fresh copies of the "
+                                           "same two trees %r" % (fname, got, want))
+    return None
+
+
 def replay(ctx, rec):
+    if str(rec.get("obligation", "")).startswith("flag-reaches"):
+        w = native_stale_distance()
+        print(w or "every distance with default arguments reflects the current structure on the probe")
+        return w is None
     bad = native_fpfn()
     print(bad or "fp/fn agree with the set definitions on the probes")
     return not bad
